@@ -28,6 +28,12 @@ def replay(ctx, path):
     comp = rp.get("component")
     if comp == "pipe":
         return replay_pipe(ctx, rp, path)
+    if comp == "ws":
+        cpath = ctx.path("replay-cases.ndjson")
+        vlib.write_ndjson(cpath, [rp["case"]])
+        ws_judge(ctx, cpath, "replay", ctx.pid)
+        ctx.rule = "replay of " + path
+        return vlib.finish(ctx)
     if comp == "tok":
         tok_replay(ctx, rp, {ctx.pid})
         ctx.rule = "replay of " + path
@@ -647,3 +653,97 @@ def c19(ctx):
     tpath = ctx.path("cases-tok.ndjson")
     vlib.write_ndjson(tpath, tcases)
     tok_judge(ctx, tpath, "trained-tables", {"C02", "C04"})
+
+
+# ---------------------------------------------------------------------------
+# C10 / C11 / C14: whitespace functions (component "ws", Trace_Ws, Gen_Ws)
+
+def ws_judge(ctx, cases_path, label, prefix):
+    obs_path = ctx.path("obs-%s.ndjson" % label)
+    vlib.harness(["exec", "ws", cases_path, obs_path, 10000])
+    obs = vlib.read_ndjson(obs_path)
+    fails, drifts, st = vlib.judge(ctx, "Trace_Ws", obs_path, len(obs), name="Trace_Ws-" + label)
+    ctx.traces += len(obs)
+    ctx.evaluations += len(obs)
+    ctx.nontrivial += st["nt"]
+    ctx.skipped += st["skip"]
+    for idx, why in fails:
+        rec = obs[idx - 1]
+        mine = [w for w in why if w.split(":")[0] == prefix or w.split(":")[0] in ("panic", "err", "hang", "harness_panic")]
+        if mine:
+            vlib.report(ctx, mine, rec, component="ws", case=rec["case"])
+    for idx, why in drifts:
+        ctx.drift.append("%s record %d: %s" % (label, idx, why))
+    if obs and len(ctx.samples) < 6:
+        o = obs[len(obs) // 2]
+        ctx.samples.append({"source": label, "observation": {k: o.get(k) for k in
+                            ("kind", "g", "s", "from", "to", "ops", "text", "out", "clean", "wb", "iw", "dw") if k in o}})
+    return obs
+
+
+def ws_gen(ctx, family, maxlen):
+    cfg = "CONSTANTS MaxLen = %d\nINIT Init\nNEXT Next\nCHECK_DEADLOCK FALSE\n" % maxlen
+    path, n = vlib.tlc_generate(ctx, "Gen_Ws", cfg, "gen-%s.ndjson" % family, env={"FAMILY": family})
+    return path
+
+
+def ws_random(ctx, kinds, n, label, prefix, seed_off=0):
+    rnd = ctx.path("rnd-%s.ndjson" % label)
+    vlib.harness(["gen", "ws", ctx.seed + seed_off, n, rnd])
+    cases = [c for c in vlib.read_ndjson(rnd) if c["kind"] in kinds]
+    vlib.write_ndjson(rnd, cases)
+    return ws_judge(ctx, rnd, label, prefix)
+
+
+def ws_mc(ctx):
+    cfg = ("CONSTANTS MaxLen = %d\nSPECIFICATION Spec\nINVARIANTS CleanIsNormalForm OpsRepairInverse RepairOnlyWhitespace "
+           "CorruptionRepairable\nCHECK_DEADLOCK FALSE\n" % (4 if ctx.quick() else 5))
+    vlib.mc(ctx, "MC_Ws", cfg, name="MC_Ws", workers=8)
+
+
+WS_ASSUME = ["unicode-segmentation / char::is_whitespace define the view (trusted)",
+             "grapheme mode: texts in which a cluster mixes whitespace and non-whitespace code points are outside the property and skipped (counted)"]
+
+
+@prop("C10", "ws", "Trace_Ws")
+def c10(ctx):
+    q = ctx.quick()
+    ctx.rule = ("MC: for all texts up to length 4/5 over {space, tab, a, 2-code-point letter} and every clean respacing: Ops/Repair are "
+                "inverse in both directions, Repair keeps the non-whitespace content for every op sequence, all-Keep is the identity; "
+                "A: all clean pairs with <=%d non-whitespace characters (every spacing of each side, multi-byte and cluster letters, both "
+                "modes) and all strings up to length %d over {space, tab, a} x all op sequences; B: random. "
+                "non-trivial = from and to differ / an op other than Keep" % ((3, 3) if q else (4, 4)))
+    ctx.assumptions = WS_ASSUME
+    ws_mc(ctx)
+    ws_judge(ctx, ws_gen(ctx, "pair", 3 if q else 4), "A-pairs", "C10")
+    ws_judge(ctx, ws_gen(ctx, "repair", 3 if q else 4), "A-repair", "C10")
+    ctx.exhaustive = True
+    ws_random(ctx, ("pair", "repair"), 4000 if q else 60000, "B", "C10")
+
+
+@prop("C11", "ws", "Trace_Ws")
+def c11(ctx):
+    q = ctx.quick()
+    ctx.rule = ("MC: Clean is the normal form (clean, content-preserving, idempotent, = words joined), word bounds non-empty, remove/full "
+                "shapes, for all texts up to length 4/5; A: all strings up to length %d over 9 slots {space, tab, NBSP, ideographic space, "
+                "a, b, ZWSP, e+acute, CRLF} in both modes; B: random strings over 13 White_Space characters, zero-width non-spaces, "
+                "clusters. non-trivial = text that is not already clean" % (4 if q else 5))
+    ctx.assumptions = WS_ASSUME
+    ws_mc(ctx)
+    ws_judge(ctx, ws_gen(ctx, "clean", 4 if q else 5), "A", "C11")
+    ctx.exhaustive = True
+    ws_random(ctx, ("clean",), 8000 if q else 120000, "B", "C11", 1)
+
+
+@prop("C14", "ws", "Trace_Ws")
+def c14(ctx):
+    q = ctx.quick()
+    ctx.rule = ("MC: every corruption reachable by some coin vector from a clean text is clean, content-preserving and repaired by "
+                "Ops/Repair (all texts up to length 4/5); A: all clean texts up to %d characters over {space, a, e+acute} x 8 probability "
+                "pairs over {0, 0.5, 1} x 3 seeds x both modes through the real preprocessing and the real whitespace-correction task; "
+                "B: random clean texts. non-trivial = the corruption changed the text" % (5 if q else 7))
+    ctx.assumptions = WS_ASSUME + ["probabilities are abstracted to the classes 0 / strictly between / 1 for the reachability (DRIFT) check"]
+    ws_mc(ctx)
+    ws_judge(ctx, ws_gen(ctx, "corrupt", 5 if q else 7), "A", "C14")
+    ctx.exhaustive = True
+    ws_random(ctx, ("corrupt",), 8000 if q else 80000, "B", "C14", 2)
